@@ -99,6 +99,8 @@ package cli
 //@   ensures registered: len(c.options) == old(len(c.options)) + 1 && c.options[old(len(c.options))] != nil && fresh(c.options[old(len(c.options))]) &&
 //@       (forall j int :: 0 <= j && j < old(len(c.options)) ==> c.options[j] == old(c.options[j]))
 //@   ensures no-collision: forall j int :: 0 <= j && j < len(names) ==> !old(optStr(names[j]) in c.optionsIdx)
+//@   ensures names-recorded: len(c.options[old(len(c.options))].Names) == len(names) &&
+//@       (forall j int :: {names[j]} 0 <= j && j < len(names) ==> c.options[old(len(c.options))].Names[j] == optStr(names[j]))
 //@   ensures no-repeat: forall i int, j int :: 0 <= i && i < j && j < len(names) ==> names[i] != names[j]
 //@   ensures carried: c.options[old(len(c.options))].ValueSetByUser == opt.ValueSetByUser && c.options[old(len(c.options))].Value == opt.Value &&
 //@       c.options[old(len(c.options))].EnvVar == opt.EnvVar && c.options[old(len(c.options))].Desc == opt.Desc &&
@@ -112,6 +114,8 @@ package cli
 //@   ensures no-env-keeps-value: opt.EnvVar == "" ==> boxframe(0)
 //@   ensures env-flag: c.options[old(len(c.options))].ValueSetFromEnv == (trace[len(trace)-1].kind == 5 && trace[len(trace)-1].b == 1)
 //@   panics duplicate: isType(panicval, "string")
+//@   panics earlier-names-keep-their-option: forall n string :: {c.optionsIdx[n]} old(n in c.optionsIdx) ==> (n in c.optionsIdx) && c.optionsIdx[n] == old(c.optionsIdx[n])
+//@   loop 1 invariant kept: forall n string :: {c.optionsIdx[n]} old(n in c.optionsIdx) ==> (n in c.optionsIdx) && c.optionsIdx[n] == old(c.optionsIdx[n])
 //@   loop 1 invariant sofar: opt.Names == opt.Names && (forall j int :: 0 <= j && j < $k ==> !old(optStr(names[j]) in c.optionsIdx))
 //@   loop 1 invariant distinct: forall i int, j int :: 0 <= i && i < j && j < $k ==> names[i] != names[j]
 //@   loop 1 invariant table: forall n string :: {n in c.optionsIdx} (n in c.optionsIdx) <==> (old(n in c.optionsIdx) || (exists j int :: 0 <= j && j < $k && n == optStr(names[j])))
@@ -421,6 +425,7 @@ package cli
 //@   requires flows: inFlow != nil && outFlow != nil
 //@   maypanic
 //@   mayexit
+//@   panics never-raises-itself: !ownPanic()
 //@   let vreq = cli.version != nil && len(args) > 0 && (exists j int :: 0 <= j && j < len(cli.version.option.Names) && cli.version.option.Names[j] == args[0])
 //@   ensures version-short-circuit: vreq ==> result == nil && noFlow(old(trace), trace) &&
 //@       trace[len(old(trace))] == evOut(ival(stdErr), fmt_sprintln(seq(toIface("string", cli.version.version))))
